@@ -144,18 +144,6 @@ def item(it, ind=""):
 def program(items):
     return "\n".join(item(it) for it in items) + "\n"
 
-def output_rels(items, prefix=""):
-    """names of the relations with an .output directive (for probes: where the interpreter writes)"""
-    out = []
-    for it in items:
-        if it["k"] == "dir" and it["d"] == "output" and not any(key in ("filename", "IO") and v != "file" for key, v, _ in it["params"]):
-            out += [prefix + r for r in it["rels"]]
-        elif it["k"] == "decl" and "output" in it["quals"]:
-            out += [prefix + n for n in it["names"]]
-        elif it["k"] == "raw":
-            pass
-    return out
-
 # ---- construct kinds of a generator program (vf/gen.py JSON) ----------------------------------------
 GEN_FN = {"ADD": "add", "SUB": "sub", "MUL": "mul", "DIV": "div", "MOD": "mod", "EXP": "exp", "NEG": "neg", "MAX": "max",
           "MIN": "min", "BAND": "band", "BOR": "bor", "BXOR": "bxor", "BNOT": "bnot", "BSHIFT_L": "bshl", "BSHIFT_R": "bshr",
